@@ -37,6 +37,11 @@ def run(report, db, tier):
                       'exactly EOFError, in the status probe, by falling '
                       'back to the default version')
     shared.eof_fallback_ps(report, R0e, db, shared.summariser(db, cg))
+    R7d = report.rule('R14.7d', 'the decorator form registers like the '
+                      'direct call, however often the decorator is applied')
+    shared.decorator_form(report, R7d, db, shared.summariser(db, cg), M,
+                          'exception_handler', 'register_exception_handler',
+                          ('early',))
     # "closes the connection ... and is dispatched": the dispatcher calls
     # disconnect(immediate=True) before it offers the exception to anyone; if
     # that call raises, nothing is dispatched at all
